@@ -93,6 +93,18 @@ Definition stmt_save_undoes_equilibration : Prop :=
     save_data O finf fmax (equilibrated O d e c P q A b cones) s
     = mkProblem P q A b cones (sanitize O finf fmax s).
 
+(** what is written depends on the equilibration DATA (dinv, einv, c) held by the solver, never
+    on a settings flag: the data part of the saved problem is the same function of the internal
+    state for every settings value (in particular whatever equilibrate_enable says at save
+    time -- settings is a public mutable field), and the settings part is the sanitised
+    settings held at save time.  Together with [stmt_save_undoes_equilibration] (which is
+    quantified over all settings): data equilibrated at construction are un-scaled even if the
+    flag has been switched off since. *)
+Definition stmt_save_data_ignores_settings : Prop :=
+  forall T (O : Ops T) (finf fmax : T) (I : internal) (s s' : settings),
+    with_settings (save_data O finf fmax I s) s' = with_settings (save_data O finf fmax I s') s'
+    /\ pset (save_data O finf fmax I s) = sanitize O finf fmax s.
+
 (** with scaling switched off (d = e = 1, c = 1) every saved number is the stored number,
     for any arithmetic in which x*1 = x, 1*1 = 1, 1/1 = 1 (true of binary64, see C19_mul_one_binary64) *)
 Record UnitLaws {T} (O : Ops T) : Prop := {
